@@ -14,6 +14,8 @@ both models are tied to the source by tools/corr/C11.py.
 * per-phase step-size rules under `List.Perm` of the phase list: `dtPSD_perm`, `dtNuc_perm`, `dtRcrit_perm`,
   `dtVolume_perm` (repaired code), `dtVolume_le`; the code as it WAS: `dtVolumeOld_order_dependent` (negative
   witness), `dtVolumeOld_last`, `dtVolumeOld_partial`
+* per-phase update `updateAll_perm`, `updateAll_equivariant`, `getDt_updateAll_perm`; the dedented form
+  `updateDedented_order_dependent` (counter-example)
 * `getDt_perm`, site competition `calcSites_perm` / `calcSites_others`, whole step `stepSummary_perm`,
   `stepSummary_equivariant`
 
@@ -727,6 +729,65 @@ theorem stepSummary_equivariant [Inhabited α] (c : Cfg α) (sc : SiteCfg α) (s
   exact (take_map p phases _ (mem_lt_of_perm_range hp)).symm
 
 end wholestep
+
+/-! ## the per-phase update of a step (`_updateParticleSizeDistribution`) -/
+section update
+open KawinV.DtRules
+variable {α : Type} [Field α] [LinearOrder α] [IsStrictOrderedRing α] [Trans α]
+
+/-- a loop whose body touches only phase p is `map`: it sends a re-listing to the same re-listing -/
+theorem updateAll_perm (body : Phase α → Phase α) (diss : Phase α → Nat) {phases phases' : List (Phase α)}
+    (h : phases ~ phases') : updateAll body diss phases ~ updateAll body diss phases' :=
+  h.map _
+
+/-- index form: `update (phases∘π) = (update phases)∘π` -/
+theorem updateAll_equivariant (body : Phase α → Phase α) (diss : Phase α → Nat) (phases : List (Phase α))
+    (p : List Nat) (hp : p ~ List.range phases.length) :
+    updateAll body diss (take p phases) = take p (updateAll body diss phases) := by
+  unfold updateAll
+  exact (take_map p phases _ (mem_lt_of_perm_range hp)).symm
+
+/-- every phase ends in the state it reaches when it is the only phase of the model -/
+theorem updateAll_single (body : Phase α → Phase α) (diss : Phase α → Nat) (phases : List (Phase α))
+    (ph : Phase α) (h : ph ∈ phases) :
+    updateAll body diss [ph] = [updatePhase body diss ph] ∧ updatePhase body diss ph ∈ updateAll body diss phases :=
+  ⟨rfl, List.mem_map_of_mem h⟩
+
+/-- **update then step size**: the time step computed from the updated per-phase state does not depend on the
+listing of the phases -/
+theorem getDt_updateAll_perm (body : Phase α → Phase α) (diss : Phase α → Nat) (c : Cfg α) (s : StepIn α)
+    {phases phases' : List (Phase α)} (h : phases ~ phases') :
+    getDt c s (updateAll body diss phases) = getDt c s (updateAll body diss phases') :=
+  getDt_perm c s (updateAll_perm body diss h)
+
+/-- two classes of width 1 holding one particle each; the first face dissolves at rate `g0`, the others at rate 1 -/
+def phD (id : Nat) (g0 : ℚ) : Phase ℚ :=
+  { id := id, site := .bulk, psd := [1, 1], size := [1/2, 3/2], bounds := [0, 1, 2], growth := [-g0, -1, -1],
+    dissIdx := 0, nucPrev := 0, nucCur := 0, rcPrev := 0, rcCur := 0, dG := 0, Rnuc := 0,
+    vmBeta := 1, areaFactor := 1, volumeFactor := 1, gbRemoval := 0, gbk := 0, parents := [], x := [1, 1] }
+
+/-- **counter-example: the dedented form.**  With the refresh of the dissolution index outside the loop, phase 0
+keeps index 0 when it is listed first and gets index 1 when it is listed last; the PSD step limit that follows
+is 1/10 in one listing and 1 in the other. -/
+theorem updateDedented_order_dependent :
+    (updateDedented id (fun _ => 1) [phD 0 10, phD 1 1]).map (fun p => (p.id, p.dissIdx)) = [(0, 0), (1, 1)] ∧
+    (updateDedented id (fun _ => 1) [phD 1 1, phD 0 10]).map (fun p => (p.id, p.dissIdx)) = [(1, 0), (0, 1)] ∧
+    dtPSD cfgQ 1 0 0 100 (updateDedented id (fun _ => 1) [phD 0 10, phD 1 1]) = 1 / 10 ∧
+    dtPSD cfgQ 1 0 0 100 (updateDedented id (fun _ => 1) [phD 1 1, phD 0 10]) = 1 := by
+  refine ⟨by simp [updateDedented, phD], by simp [updateDedented, phD], ?_, ?_⟩ <;>
+    norm_num [updateDedented, phD, dtPSD, cfgQ, sameT, DtRules.ne, pbmDt, PBM.getDT, PBM.dtFilter, PBM.maxList, PBM.absS,
+      DtRules.fn, minList, minS, List.range, List.range.loop, List.filter]
+
+/-- the code as it is, on the same two listings: index 1 for both phases, limit 1 both times -/
+example :
+    (updateAll id (fun _ => 1) [phD 0 10, phD 1 1]).map (fun p => (p.id, p.dissIdx)) = [(0, 1), (1, 1)] ∧
+    dtPSD cfgQ 1 0 0 100 (updateAll id (fun _ => 1) [phD 0 10, phD 1 1]) = 1 ∧
+    dtPSD cfgQ 1 0 0 100 (updateAll id (fun _ => 1) [phD 1 1, phD 0 10]) = 1 := by
+  refine ⟨by simp [updateAll, updatePhase, phD], ?_, ?_⟩ <;>
+    norm_num [updateAll, updatePhase, phD, dtPSD, cfgQ, sameT, DtRules.ne, pbmDt, PBM.getDT, PBM.dtFilter, PBM.maxList, PBM.absS,
+      DtRules.fn, minList, minS, List.range, List.range.loop, List.filter]
+
+end update
 
 /-! ## diffusion step: `D·∇x` commutes with a re-listing of the independent elements -/
 section diffusion
